@@ -17,6 +17,8 @@ open CaddyModel.C01
 #print axioms default_logger_after_validate
 #print axioms step_default_logger
 #print axioms history_default_logger
+#print axioms step_default_storage
+#print axioms history_default_storage
 #print axioms history_atomic
 #print axioms step_atomic
 #print axioms stop_leaves_nothing
